@@ -267,6 +267,20 @@ def sweep_records(seed, tier):
             out.append({"engine": "threadsim", "config": {"warm": True, "hashseed": 0, "strategy": "random", "sched_seed": rng.getrandbits(48), "mean_gap": rng.choice([10, 100, 1000]),
                                                            "pct_depth": 1, "p_cold": 0.0, "gc_rate": 0.0, "sweep": "write-focus:" + kind, "importlib_steps": False},
                         "scripts": scripts})
+    # (b') the function zoo: the threads print the same two dozen-function statements for one dialect, each with its own literal
+    #      arguments - a generator method that assembles its output in something shared prints another thread's values
+    from sim.corpus import corpus as _corpus
+
+    nz = len(_corpus.zoo_statements(0))
+    for d in ALL_DIALECTS:
+        for rep in range(1 if tier == "quick" else 4):
+            k += 1
+            rng = random.Random(common.derive_seed("C19-sweep", seed, k))
+            idx = rng.sample(range(nz), 4)
+            scripts = [[{"op": "generate", "sql": _corpus.zoo_statements(ti)[j], "read": None, "write": d, "opts": {}} for j in idx] for ti in range(3)]
+            out.append({"engine": "threadsim", "config": {"warm": True, "hashseed": 0, "strategy": "random", "sched_seed": rng.getrandbits(48), "mean_gap": rng.choice([10, 100, 1000]),
+                                                           "pct_depth": 1, "p_cold": 0.0, "gc_rate": 0.0, "sweep": "write-focus:zoo", "importlib_steps": False},
+                        "scripts": scripts})
     # (c) micro contention on every small entry point: one thread streams thousands of distinct arguments (any bounded memo
     #     overflows several times), two threads keep asking for two popular ones
     from sim.threadsim.child import MICRO_KINDS
